@@ -146,17 +146,43 @@ def combine (codes : List JobStatusCode) : JobStatusCode :=
   else if codes.all (· == .NOJOBS) then .NOJOBS
   else .ERROR
 
-/-- `SlurmScriptAdapter.check_jobs`; `sa` is consulted only when some job is
-still `None` after `squeue` -/
-def slurmCheck (ids : List Str) (sq sa : Proc) : Except Unit (JobStatusCode × Status) :=
+/-- `[jobid for jobid, jstatus in status.items() if jstatus is None]` -/
+def Status.missing (st : Status) : List Str :=
+  (st.map (·.1)).filter (fun id => (st.get id).isNone)
+
+/-- `SlurmScriptAdapter.check_jobs`; the accounting command is consulted only when
+some job is still `None` after `squeue`, and it is asked (`--jobs=`) about exactly
+those jobs: `acct req` is what `sacct` answers to the request `req` -/
+def slurmCheck (ids : List Str) (sq : Proc) (acct : List Str → Proc) :
+    Except Unit (JobStatusCode × Status) :=
   match squeue (Status.init ids) sq with
   | .error e => .error e
   | .ok (c1, st1) =>
     if st1.anyNone then
-      match sacct st1 sa with
+      match sacct st1 (acct st1.missing) with
       | .error e => .error e
       | .ok (c2, st2) => .ok (combine [c1, c2], st2)
     else .ok (combine [c1], st1)
+
+/-- `"\n".join(rows)` -/
+def joinLines : List Str → Str
+  | [] => []
+  | [r] => r
+  | r :: rs => r ++ '\n' :: joinLines rs
+
+/-- the first field of an accounting row as `sacctAct` reads it -/
+def rowId (row : Str) : Str := (reSplitWs row).headD []
+
+/-- The scheduler side of the `sacct --jobs=<req>` contract used by the correspondence
+(mirrored by the harness' scripted `sacct`): of the full accounting text, the rows whose
+job field is one of Maestro's own job ids are returned only for the ids that were asked
+about; every other row (headers, other users' jobs, job steps, array rows, blank lines)
+is returned whatever the request. -/
+def acctReply (ids : List Str) (full : Proc) (req : List Str) : Proc :=
+  let rows := splitOnChar '\n' full.out
+  { rc := full.rc,
+    out := joinLines (rows.take 2 ++
+      (rows.drop 2).filter (fun r => !(ids.contains (rowId r) && !req.contains (rowId r)))) }
 
 /-! ### LSF -/
 
